@@ -63,6 +63,15 @@ def b_if(c, a, b):
         return c
     if a is False and b is True:
         return z3.Not(c)
+    # keep flags in and/or/not form (decisions on them decompose into literals)
+    if a is True:
+        return b_or(c, b)
+    if b is False:
+        return b_and(c, a)
+    if a is False:
+        return b_and(z3.Not(c), b)
+    if b is True:
+        return b_or(z3.Not(c), a)
     return z3.If(c, _zb(a), _zb(b))
 
 
@@ -694,14 +703,16 @@ def v_sqrt(x):
             rn, rd = math.isqrt(fr.numerator), math.isqrt(fr.denominator)
             if rn * rn == fr.numerator and rd * rd == fr.denominator:
                 return SymFloat(real_const(fractions.Fraction(rn, rd)), b_or(x.nan, x.ninf), x.pinf, False)
-    # sqrt is a function: the same argument term gets the same symbol
+    # sqrt is a function: the same argument term (after simplification with
+    # the literals decided on this path) gets the same symbol
     memo = ctx.__dict__.setdefault("_sqrt_memo", {})
+    x = SymFloat(ctx.simplify_under_facts(x.val), x.nan, x.pinf, x.ninf)
     key = x.val.get_id()
     if key in memo:
         r = memo[key][0]
     else:
         r = z3.Real(ctx.fresh("sqrt"))
-        ctx.define(z3.And(r >= 0, z3.Implies(x.val >= 0, r * r == x.val), z3.Implies(x.val < 0, r == 0)))
+        ctx.define(z3.And(r >= 0, z3.Implies(x.val >= 0, r * r == x.val), z3.Implies(x.val < 0, r == 0)), symbol=r)
         memo[key] = (r, x.val)
     neg = _fold(z3.simplify(x.val < 0))
     return SymFloat(r, b_or(x.nan, x.ninf, b_and(b_not(x.pinf), neg)), x.pinf, False)
@@ -712,12 +723,13 @@ def v_cbrt_pow(x):
     x = lift(x)
     ctx = core.current()
     memo = ctx.__dict__.setdefault("_cbrt_memo", {})
+    x = SymFloat(ctx.simplify_under_facts(x.val), x.nan, x.pinf, x.ninf)
     key = x.val.get_id()
     if key in memo:
         r = memo[key][0]
     else:
         r = z3.Real(ctx.fresh("cbrt"))
-        ctx.define(z3.And(r >= 0, z3.Implies(x.val >= 0, r * r * r == x.val), z3.Implies(x.val < 0, r == 0)))
+        ctx.define(z3.And(r >= 0, z3.Implies(x.val >= 0, r * r * r == x.val), z3.Implies(x.val < 0, r == 0)), symbol=r)
         memo[key] = (r, x.val)
     neg = _fold(z3.simplify(x.val < 0))
     return SymFloat(r, b_or(x.nan, x.ninf, b_and(b_not(x.pinf), neg)), x.pinf, False)
@@ -855,9 +867,28 @@ def realize(x):
 
 
 # ------------------------------------------------------------- builtin shadows
+class Token(str):
+    """A well-formed numeral in a text source whose numeric content is
+    symbolic (DESIGN 2.2): the string structure is concrete, float()/int() of
+    it yield the symbolic value, or raise ValueError on the symbolic
+    not-a-number flag."""
+    sym = None
+    bad = False
+
+    def __new__(cls, text, sym, bad=False):
+        t = str.__new__(cls, text)
+        t.sym = sym
+        t.bad = bad
+        return t
+
+
 def sym_float(x=0.0):
     """Shadow of builtin float() inside verif modules."""
     import numpy as np
+    if isinstance(x, Token):
+        if bool(x.bad):
+            raise ValueError("could not convert string to float: %r" % str(x))
+        return lift(x.sym)
     if isinstance(x, SymFloat):
         return x
     if isinstance(x, (SymInt, SymBool)):
@@ -872,6 +903,12 @@ def sym_float(x=0.0):
 def sym_int(x=0, *args):
     """Shadow of builtin int() inside verif modules (truncation toward zero)."""
     import numpy as np
+    if isinstance(x, Token):
+        if bool(x.bad):
+            raise ValueError("invalid literal for int() with base 10: %r" % str(x))
+        if isinstance(x.sym, SymFloat):
+            raise ValueError("invalid literal for int() with base 10: %r" % str(x))
+        return x.sym
     if isinstance(x, SymInt):
         return x
     if isinstance(x, SymBool):
